@@ -21,6 +21,11 @@ CLAIMED = {
         text='Exploration with exhaustive sub-spaces: every scheduler step of 4 (thorough 5) deterministic baseline scenarios x requester {A, B, both} x action {terminate, close, peer process death}, then seeded random scenarios and cut-points; obligations (a)-(e) of the statement are decided at world quiescence only (half-open = quiescent and still open).',
         note=_NOTE + ' A refused terminate() imposes only "session unharmed". Agent.shutdown() over several contacts is exercised in the C18 agent scenarios.',
     ),
+    'C17': dict(
+        technique='runtime monitor of loop exception records, decoded wire output, receive queue and own-transfer progress of a real endpoint driven by a scripted adversarial peer, judged by a peer-model automaton',
+        text='Exploration with exhaustive sub-spaces: in each of six endpoint states and both roles, all sequences of length <= 2 (thorough <= 3 over a reduced alphabet) of ~16 state-relative messages (segments, ACKs, refusals, SESS_TERM, unknown types, bad contact headers), then seeded random sequences up to length 12; afterwards the scripted peer acknowledges honestly and the endpoint\'s own transfers must complete.',
+        note=_NOTE,
+    ),
     'C02': dict(
         technique='runtime differential monitor: real scapy-CBOR encoder/decoder vs an independent RFC 9171 decoder/encoder/validator with a framing-preserving CBOR walker',
         text='Exploration: a directed boundary corpus plus ~12k (quick) / ~320k (thorough) seeded random bundles, each run through three differentials (values->real encoder->independent decoder and validator; real decode and byte-identical re-encode; independent encoder->real decoder, typed block data and status reports included) and a byte-for-byte comparison of the two encoders.',
